@@ -2,6 +2,7 @@ package sse
 
 import (
 	"errors"
+	"fmt"
 	"io"
 )
 
@@ -9,19 +10,35 @@ import (
 
 var vhErrRead = errors.New("verif: scripted read error")
 
+// a read error that wraps io.EOF (a transport that annotates the peer's close): it is an
+// error like any other, not a clean end of the stream
+var vhErrReadWrapsEOF = fmt.Errorf("verif: connection closed by peer: %w", io.EOF)
+
+// vhEndKind: 0 clean end, otherwise the read error the stream ends with.
+func vhEndKind() error {
+	switch verifChoose("endkind", 2+verifParam("EOFWRAP", 1)) {
+	case 1:
+		return vhErrRead
+	case 2:
+		return vhErrReadWrapsEOF
+	}
+	return nil
+}
+
 // Read over (stream, way of ending, chunking).
 func vhC11Read() {
 	stream := verifNondetBytes("stream", verifParam("N", 4))
 	r := &vhReader{data: stream, seg: verifParam("SEG", 1) == 1}
-	failing := verifChoose("endkind", 2) == 1
+	rerr := vhEndKind()
+	failing := rerr != nil
 	if failing {
-		r.endErr = vhErrRead
+		r.endErr = rerr
 		r.eofWith = verifChoose("errwithdata", 2) == 1
 	}
 	o := vhRunRead(r, nil, -1)
 	verifAssert(!o.errAfter && o.errs <= 1, "C11/Read/no-event-after-error")
 	if failing {
-		verifAssert(o.err == vhErrRead, "C11/Read/read-error-reported-as-itself")
+		verifAssert(o.err == rerr, "C11/Read/read-error-reported-as-itself")
 		// events completed before the failure are delivered, the pending one is dropped
 		spec := vhSpecInterpretEx(stream, false, false, false, "")
 		verifAssert(vhEventsEqual(o.events, spec.events), "C11/Read/events-before-read-error")
@@ -40,15 +57,16 @@ func vhC11Read() {
 func vhC11ConnRead() {
 	stream := verifNondetBytes("stream", verifParam("N", 4))
 	r := &vhReader{data: stream, seg: verifParam("SEG", 1) == 1}
-	failing := verifChoose("endkind", 2) == 1
+	rerr := vhEndKind()
+	failing := rerr != nil
 	if failing {
-		r.endErr = vhErrRead
+		r.endErr = rerr
 		r.eofWith = verifChoose("errwithdata", 2) == 1
 	}
 	o, _ := vhRunConn(r, "")
 	verifAssert(o.err != nil, "C11/ConnRead/never-nil")
 	if failing {
-		verifAssert(o.err == vhErrRead, "C11/ConnRead/read-error-reported-as-itself")
+		verifAssert(o.err == rerr, "C11/ConnRead/read-error-reported-as-itself")
 		spec := vhSpecInterpretEx(stream, true, false, false, "")
 		verifAssert(vhEventsEqual(o.events, spec.events), "C11/ConnRead/events-before-read-error")
 		verifCover("C11/ConnRead/failing-reader")
